@@ -27,8 +27,12 @@ def parseDump (n : Nat) : P Dump := do
   let align ← boolTok; let speed ← flt; let alpha ← flt; let beta ← flt; let ht ← flt
   pure { sf, fp, vol, msd, gv, align, speed, alpha, beta, ht }
 
-def parseOp : P (CondOp Float) := do
-  let t ← next
+/-- a setter call, or `load_model` called again on the condition in use -/
+inductive DOp where
+  | set (op : CondOp Float)
+  | load
+
+def parseSetter (t : String) : P (CondOp Float) := do
   match t with
   | "sf" => return .sf (← nat)
   | "fp" => return .fp (← nat)
@@ -41,6 +45,13 @@ def parseOp : P (CondOp Float) := do
   | "beta" => return .beta (← flt)
   | "ht" => return .ht (← flt)
   | _ => throw s!"bad cond op {t}"
+
+/-- setters only (the e2e setter histories) -/
+def parseOp : P (CondOp Float) := do parseSetter (← next)
+
+def parseDOp : P DOp := do
+  let t ← next
+  if t == "load" then return .load else return .set (← parseSetter t)
 
 def modelDump (c : Condition Float) : Dump :=
   { sf := c.samplingFrequency, fp := c.fperiod, vol := c.getVolume, msd := c.msdThreshold,
@@ -113,6 +124,18 @@ def oracleStep (op : CondOp Float) (b a : Dump) : Option String × String :=
   | .ht f => (firstSome [check (bitsEq a.ht f) s!"get_additional_half_tone={a.ht} after set({f})",
       unchangedExcept "ht"], s!"ht:{region f (-24) 24}")
 
+/-- `load_model` on a condition in use: header values are taken, the user's settings stay -/
+def oracleLoad (sr fp n : Nat) (alpha : Float) (b a : Dump) : Option String :=
+  firstSome [
+    check (a.sf == sr && a.fp == fp) s!"after load_model: rate {a.sf} / frame period {a.fp}, header {sr} / {fp}",
+    check (a.msd == List.replicate n 0.5 && a.gv == List.replicate n 1.0) "after load_model: thresholds / GV weights are not the defaults",
+    check (bitsEq a.alpha alpha) s!"after load_model: alpha {a.alpha}, header {alpha}",
+    check (bitsEq a.vol b.vol) s!"load_model changed the volume ({b.vol} dB -> {a.vol} dB)",
+    check (bitsEq a.speed b.speed) s!"load_model changed the speed ({b.speed} -> {a.speed})",
+    check (a.align == b.align) "load_model changed the alignment flag",
+    check (bitsEq a.beta b.beta) s!"load_model changed beta ({b.beta} -> {a.beta})",
+    check (bitsEq a.ht b.ht) s!"load_model changed the additional half tone ({b.ht} -> {a.ht})" ]
+
 def oracleFresh (sr fp n : Nat) (alpha : Float) (d : Dump) : Option String :=
   firstSome [
     check (d.sf == sr) s!"default sampling rate {d.sf} != header {sr}",
@@ -131,7 +154,7 @@ def run : P Verdict := do
   let sr ← nat; let fp ← nat; let n ← nat; let stage ← nat; let lg ← boolTok; let alpha ← flt
   expect "nops"
   let k ← nat
-  let ops ← many k parseOp
+  let ops ← many k parseDOp
   expect "dumps"
   let dumps ← many (k + 1) (parseDump n)
   let c0 : Condition Float := Condition.default.loadModel sr fp n (some stage) (some lg) (some alpha)
@@ -142,11 +165,16 @@ def run : P Verdict := do
   let mut prev := d0
   let mut classes : List String := []
   for (op, d) in ops.zip dumps.tail do
-    match CondOp.apply c op with
-    | .ok c' => c := c'
-    | _ => corr := corr <|> some "model: setter index out of range (real call would panic)"
+    match op with
+    | .set op =>
+      match CondOp.apply c op with
+      | .ok c' => c := c'
+      | _ => corr := corr <|> some "model: setter index out of range (real call would panic)"
+    | .load => c := c.loadModel sr fp n (some stage) (some lg) (some alpha)
     if corr.isNone then corr := diffDump (modelDump c) d
-    let (o, cls) := oracleStep op prev d
+    let (o, cls) := match op with
+      | .set op => oracleStep op prev d
+      | .load => (oracleLoad sr fp n alpha prev d, "load")
     if orc.isNone then orc := o
     classes := cls :: classes
     prev := d
